@@ -285,7 +285,7 @@ func CheckC02(c *ParseCase, st *Stats) *Violation {
 			st.Class("unclaimed:tainted-binding")
 			return nil
 		}
-		if hasEnvGroup(c.D, c.AST) && Verifies(c.D, c.AST, c.Argv, out.Bind, Quirks{GroupEnvAlone: true}) {
+		if hasEnvGroup(c.D, c.AST) && Verifies(c.D, c.AST, c.Argv, out.Bind, Quirks{GroupEnvAlone: true, KeepTainted: true}) {
 			st.Class("unclaimed:group-env-binding")
 			return nil
 		}
@@ -303,6 +303,72 @@ func CheckC02(c *ParseCase, st *Stats) *Violation {
 			m["bound"] = out.Bind
 			return m
 		})
+	}
+	return nil
+}
+
+// CheckC15Parse (C15 on arbitrary, possibly ambiguous specs): SetByUser is true exactly for the containers that received
+// a value from the command line on the accepting path - not for containers merely tried on an abandoned branch.
+func CheckC15Parse(c *ParseCase, st *Stats) *Violation {
+	v, out, _ := CheckAccept("C15", c, st)
+	if v != nil {
+		st.Class("deferred-to-C01")
+		return nil
+	}
+	if out == nil || !out.Accept {
+		return nil
+	}
+	for key, vals := range out.Bind {
+		if len(vals) == 0 {
+			return Violf("SetByUser of %s is true although the command line supplied no value for it (it holds nothing); spec %q argv %q [%s]", key, c.SpecStr, c.Argv, FmtDecls(c.D))
+		}
+	}
+	if !Verifies(c.D, c.AST, c.Argv, out.Bind, Quirks{KeepTainted: true, GroupEnvAlone: true}) {
+		// which values went where is C02's business; here only: did a container receive values without being flagged?
+		withUnflagged := map[string][]string{}
+		for k, v := range out.Bind {
+			withUnflagged[k] = v
+		}
+		extra := ""
+		for i, o := range c.D.Opts {
+			key := c.D.OptKey(i)
+			if _, set := out.Bind[key]; set {
+				continue
+			}
+			decl := []string(nil)
+			if o.Env {
+				decl = []string{EnvValue(o)}
+			}
+			if raw := out.Raw[key]; len(raw) > 0 && !reflect.DeepEqual(raw, decl) {
+				withUnflagged[key] = raw
+				extra = key
+			}
+		}
+		for i := range c.D.Args {
+			key := c.D.ArgKey(i)
+			if _, set := out.Bind[key]; !set && len(out.Raw[key]) > 0 {
+				withUnflagged[key] = out.Raw[key]
+				extra = key
+			}
+		}
+		if extra != "" && Verifies(c.D, c.AST, c.Argv, withUnflagged, Quirks{KeepTainted: true, GroupEnvAlone: true}) {
+			return Violf("%s received %q from the command line but its SetByUser flag is false; spec %q argv %q [%s]", extra, withUnflagged[extra], c.SpecStr, c.Argv, FmtDecls(c.D))
+		}
+		st.Class("deferred-to-C02")
+		return nil
+	}
+	st.Class("verdict:accepted-and-flags-consistent")
+	nset, nunset := 0, 0
+	for i := range c.D.Args {
+		if _, set := out.Bind[c.D.ArgKey(i)]; set {
+			nset++
+		} else {
+			nunset++
+		}
+	}
+	if nset > 0 && nunset > 0 && c.AST.Operators() >= 1 {
+		st.Class("args:some-bound-some-not")
+		st.NonTrivial(c.Key(), c.Brief)
 	}
 	return nil
 }
@@ -336,6 +402,13 @@ func init() {
 			return Violf("bad replay file: %v", err)
 		}
 		return CheckC01(&c, StatsFor("C01.replay"))
+	})
+	RegisterReplay("C15", "parse", func(raw json.RawMessage) *Violation {
+		var c ParseCase
+		if err := json.Unmarshal(raw, &c); err != nil {
+			return Violf("bad replay file: %v", err)
+		}
+		return CheckC15Parse(&c, StatsFor("C15.replay"))
 	})
 	RegisterReplay("C02", "parse", func(raw json.RawMessage) *Violation {
 		var c ParseCase
